@@ -35,6 +35,20 @@ use tarpc::server::limits::requests_per_channel::MaxRequests;
 use tarpc::server::{serve, BaseChannel, Channel, Config, InFlightRequest, Requests};
 use tarpc::{context, trace, ChannelError, ClientMessage, Request, Response, ServerError};
 
+/// The limiter, built the two ways tarpc offers: `Channel::max_concurrent_requests(l)` directly, or
+/// (odd response buffers) through the `Incoming` adapter `max_concurrent_requests_per_channel(l)`
+/// (`MaxRequestsPerChannel`, requests_per_channel.rs), which must hand out the same decorator.
+pub(crate) fn limited<C: Channel>(ch: C, l: usize, buf: usize) -> MaxRequests<C> {
+    use futures::{FutureExt, StreamExt};
+    use tarpc::server::incoming::Incoming;
+    if buf % 2 == 1 {
+        let mut s = Box::pin(futures::stream::iter(vec![ch]).max_concurrent_requests_per_channel(l));
+        s.next().now_or_never().expect("ready").expect("one channel")
+    } else {
+        ch.max_concurrent_requests(l)
+    }
+}
+
 pub const THROTTLE_TEXT: &str = "server throttled the request.";
 
 #[derive(Clone, Copy, Debug, PartialEq)]
@@ -455,7 +469,7 @@ pub fn drive(
     let basech = BaseChannel::new(Config { pending_response_buffer: s.buf }, tr);
     let mut chan: Option<Chan> = Some(match s.limit {
         None => Chan::Plain(Box::pin(basech.requests())),
-        Some(l) => Chan::Lim(Box::pin(basech.max_concurrent_requests(l).requests())),
+        Some(l) => Chan::Lim(Box::pin(limited(basech, l, s.buf).requests())),
     });
     let waker = TaskWaker::new();
     let mut slots: Vec<Slot> = vec![];
